@@ -39,6 +39,7 @@ func checkC02(c *Ctx, r *Report) {
 	borrow(c, r, c01Sections, "C01.R2.sections-reset", "C02.R2.sections-reset", 1, "every success return of Msg.unpack has assigned all four sections: nothing in the returned message is left over from an earlier input", nil, "the returned message then holds records that do not lie inside the input")
 	c02NilResults(c, r, "C02.R4.nil-results", fns)
 	c02PrintFormatted(c, r, "C02.R5.print-formatted")
+	c02PrintBounds(c, r, "C02.R5.print-bounds")
 	headerWritten(c, r, "C02.R5.header-written", "PackRR of a record without RDATA (accepted from the wire with RDLENGTH 0) at the end of a buffer reports success, overwrites the last two octets of the previous record, and panics with a slice bound of -2 on a buffer shorter than two octets")
 }
 
